@@ -47,6 +47,7 @@ macro_rules! ge {
         #[kani::proof]
         #[kani::unwind($unw)]
         #[kani::stub(std::backtrace::Backtrace::capture, no_backtrace)]
+        #[kani::stub(alloc::fmt::format, crate::util::no_format)]
         pub fn $name() {
             run::<{ [$(stringify!($eq)),+].len() }, $v>([$(&$eq[..]),+]);
         }
@@ -85,6 +86,7 @@ macro_rules! ge_full_rank {
         #[kani::proof]
         #[kani::unwind($unw)]
         #[kani::stub(std::backtrace::Backtrace::capture, no_backtrace)]
+        #[kani::stub(alloc::fmt::format, crate::util::no_format)]
         pub fn $name() {
             run_always_solvable::<{ [$(stringify!($eq)),+].len() }, $v>([$(&$eq[..]),+]);
         }
@@ -132,6 +134,7 @@ macro_rules! ge_consistent {
         #[kani::proof]
         #[kani::unwind($unw)]
         #[kani::stub(std::backtrace::Backtrace::capture, no_backtrace)]
+        #[kani::stub(alloc::fmt::format, crate::util::no_format)]
         pub fn $name() {
             run_consistent::<{ [$(stringify!($eq)),+].len() }, $v>([$(&$eq[..]),+]);
         }
